@@ -30,6 +30,9 @@ pub fn prot_palette() -> Vec<RProtected> {
         RProtected { original: None, header: extras.clone() },
         RProtected { original: None, header: cs.clone() },
     ];
+    // retained bytes win over an edited parsed view
+    v.push(RProtected { original: Some(vec![]), header: alg.clone() });
+    v.push(RProtected { original: Some(vec![0xa0]), header: RHeader { key_id: b"k".to_vec(), ..Default::default() } });
     // received bytes whose parsed view is not equal to itself (NaN) and is not minimally encoded
     v.push(RProtected {
         original: Some(vec![0xa1, 0x18, 0x63, 0xfb, 0x7f, 0xf8, 0, 0, 0, 0, 0, 0]),
@@ -107,6 +110,66 @@ fn check_built_slot(cx: &Cx, p: &RProtected, l: &mut Local) {
     }
 }
 
+/// A message received with protected bytes `wire`, whose parsed view is edited afterwards without
+/// touching the retained bytes: every structure must still carry the received bytes.
+pub fn edited_after_decode(ex: &Ex, fams: &'static str, l: &mut Local) {
+    use coset::CborSerializable;
+    let wires: Vec<Vec<u8>> = vec![vec![], vec![0xa0], vec![0xa1, 0x01, 0x38, 0x06], vec![0xa2, 0x04, 0x41, 0x6b, 0x01, 0x26]];
+    let edits = crate::spaces::c11::single_field_headers();
+    let aad: &[u8] = b"edit-aad";
+    for wire in &wires {
+        for (ei, edit) in edits.iter().enumerate().take(4) {
+            let pb = crate::spaces::wrap_bstr(wire);
+            let ch = subject::c_header(edit).unwrap();
+            let case = format!("decoded with protected bytes {} then header edited to #{}", hex(wire), ei);
+            let cx = Cx { pid: ex.pid, space: "edited-after-decode", case: &case, exact: true, fams, slots_only: false, body_override: Some(wire) };
+            l.state(1);
+            l.count("edited_after_decode.cases");
+            if fams.contains('S') {
+                let bytes = [&[0x84u8][..], &pb, &[0xa0, 0x41, 0x70, 0x41, 0x73]].concat();
+                if let Ok(Ok(mut m)) = catch(|| coset::CoseSign1::from_slice(&bytes)) {
+                    m.protected.header = ch.clone();
+                    crypto::sign1(&cx, &m, &[aad], &[], l);
+                }
+                let bytes = [&[0x84u8][..], &pb, &[0xa0, 0x41, 0x70, 0x81, 0x83, 0x40, 0xa0, 0x41, 0x73]].concat();
+                if let Ok(Ok(mut m)) = catch(|| coset::CoseSign::from_slice(&bytes)) {
+                    m.protected.header = ch.clone();
+                    crypto::sign(&cx, &m, &[aad], &[], l);
+                }
+            }
+            if fams.contains('M') {
+                let bytes = [&[0x84u8][..], &pb, &[0xa0, 0x41, 0x70, 0x41, 0x74]].concat();
+                if let Ok(Ok(mut m)) = catch(|| coset::CoseMac0::from_slice(&bytes)) {
+                    m.protected.header = ch.clone();
+                    crypto::mac0(&cx, &m, &[aad], l);
+                }
+                let bytes = [&[0x85u8][..], &pb, &[0xa0, 0x41, 0x70, 0x41, 0x74, 0x81, 0x83, 0x40, 0xa0, 0x41, 0x63]].concat();
+                if let Ok(Ok(mut m)) = catch(|| coset::CoseMac::from_slice(&bytes)) {
+                    m.protected.header = ch.clone();
+                    crypto::mac(&cx, &m, &[aad], l);
+                }
+            }
+            if fams.contains('E') {
+                let bytes = [&[0x83u8][..], &pb, &[0xa0, 0x41, 0x63]].concat();
+                if let Ok(Ok(mut m)) = catch(|| coset::CoseEncrypt0::from_slice(&bytes)) {
+                    m.protected.header = ch.clone();
+                    crypto::encrypt0(&cx, &m, &[aad], l);
+                }
+                if let Ok(Ok(mut m)) = catch(|| coset::CoseRecipient::from_slice(&bytes)) {
+                    m.protected.header = ch.clone();
+                    let enc = [&[0x83u8][..], &pb, &[0xa0, 0x41, 0x63]].concat();
+                    crypto::recipient(&cx, &m, &enc, &[], &[aad], l);
+                }
+                let bytes = [&[0x84u8][..], &pb, &[0xa0, 0x41, 0x63, 0x81, 0x83, 0x40, 0xa0, 0x41, 0x63]].concat();
+                if let Ok(Ok(mut m)) = catch(|| coset::CoseEncrypt::from_slice(&bytes)) {
+                    m.protected.header = ch.clone();
+                    crypto::encrypt(&cx, &m, &[aad], l);
+                }
+            }
+        }
+    }
+}
+
 // ---------------------------------------------------------------------------------------------
 // C03
 
@@ -136,7 +199,7 @@ pub fn explore_c03(ex: &Ex) {
     par_partitions(ex.rep, work, |(bi, si), l| {
         let body = &pal[*bi];
         let case = format!("body={} signer={:?}", bi, si);
-        let cx = Cx { pid: ex.pid, space: "c03", case: &case, exact, fams: "S", slots_only: false };
+        let cx = Cx { pid: ex.pid, space: "c03", case: &case, exact, fams: "S", slots_only: false, body_override: None };
         check_built_slot(&cx, body, l);
         let cbody = subject::c_protected(body).unwrap();
         for (aad, payload) in &pairs {
@@ -147,7 +210,7 @@ pub fn explore_c03(ex: &Ex) {
                     continue;
                 }
             }
-            let cx = Cx { pid: ex.pid, space: "c03", case: &case, exact, fams: "S", slots_only: false };
+            let cx = Cx { pid: ex.pid, space: "c03", case: &case, exact, fams: "S", slots_only: false, body_override: None };
             if l.samples.is_empty() {
                 l.sample(|| json!({"space": "c03", "case": case, "body_protected": format!("{:?}", body)}));
             }
@@ -213,6 +276,9 @@ pub fn explore_c03(ex: &Ex) {
         }
     });
     ex.bound("c03", "injectivity_table_size", json!(injective.lock().unwrap().len()));
+    let mut l = Local::default();
+    edited_after_decode(ex, "S", &mut l);
+    ex.rep.merge(l);
 }
 
 fn cx_global(pid: &str, l: &mut Local, what: &str, a: String, b: String) {
@@ -375,7 +441,7 @@ pub fn explore_c04(ex: &Ex) {
                     continue;
                 }
             }
-            let cx = Cx { pid: ex.pid, space: "c04", case: &case, exact: true, fams: "M", slots_only: false };
+            let cx = Cx { pid: ex.pid, space: "c04", case: &case, exact: true, fams: "M", slots_only: false, body_override: None };
             check_built_slot(&cx, body, l);
             l.nontrivial(&case);
             if l.samples.is_empty() {
@@ -425,6 +491,9 @@ pub fn explore_c04(ex: &Ex) {
         }
     });
     ex.bound("c04", "injectivity_table_size", json!(table.lock().unwrap().len()));
+    let mut l = Local::default();
+    edited_after_decode(ex, "M", &mut l);
+    ex.rep.merge(l);
 }
 
 fn mac_builder_routes(cx: &Cx, h: &RHeader, aad: &[u8], payload: &[u8], l: &mut Local) {
@@ -532,7 +601,7 @@ pub fn explore_c05(ex: &Ex) {
                         continue;
                     }
                 }
-                let cx = Cx { pid: ex.pid, space: "c05", case: &case, exact: true, fams: "E", slots_only: false };
+                let cx = Cx { pid: ex.pid, space: "c05", case: &case, exact: true, fams: "E", slots_only: false, body_override: None };
                 check_built_slot(&cx, body, l);
                 l.nontrivial(&case);
                 if l.samples.is_empty() {
@@ -587,6 +656,9 @@ pub fn explore_c05(ex: &Ex) {
         }
     });
     ex.bound("c05", "injectivity_table_size", json!(table.lock().unwrap().len()));
+    let mut l = Local::default();
+    edited_after_decode(ex, "E", &mut l);
+    ex.rep.merge(l);
 }
 
 fn enc_builder_routes(cx: &Cx, h: &RHeader, aad: &[u8], plaintext: &[u8], l: &mut Local) {
